@@ -364,6 +364,61 @@ def add_forms(rng, spec, val_p=0.5, cont_p=0.5):
     spec["pyval"] = {str(n): rng.choice([1, 2]) for n in spec.get("py", []) if rng.random() < val_p}
     for t in spec["tasks"]:
         t["dep_form"] = rng.choice(["list", "tuple", "dict", "kwargs"]) if rng.random() < cont_p else "bare"
+    add_decoration(rng, spec)
+    return spec
+
+
+MARKS = ("try_last", "try_first", "skipif_false", "markone")
+
+
+def add_decoration(rng, spec, mark_p=0.35, task_p=0.2):
+    """How a task function is decorated: nothing, a bare `@task()`, and / or a pytask marker that does not change what runs
+    (try_first / try_last, skipif(False), a registered user marker)."""
+    for t in spec["tasks"]:
+        t["marks"] = [rng.choice(MARKS)] if rng.random() < mark_p else []
+        t["force_task"] = rng.random() < task_p
+    return spec
+
+
+def gen_after_forms(rng, close_cycle=False):
+    """One module; targets of every decoration kind (plain `task_` function, `@task`, marker only) with and without products,
+    named through the function form of `after` (single reference or list). close_cycle: the first target is additionally
+    declared (expression form) after the last downstream task that has a product, which closes a chain through its products."""
+    kinds = [("plain", [], False), ("task", [], True), ("marker", [rng.choice(MARKS)], False), ("marker+task", [rng.choice(MARKS)], True)]
+    rng.shuffle(kinds)
+    tasks, node = [], 400
+    targets = []
+    for i, (kind, marks, force) in enumerate(kinds[:rng.randint(2, 4)]):
+        t = _task(i, deps=[399] if rng.random() < 0.5 else [], module=0)
+        if rng.random() < 0.65:
+            node += 1
+            t["prods"].append(node)
+        t["marks"], t["force_task"] = marks, force
+        tasks.append(t)
+        targets.append(i)
+    nd = rng.randint(1, 3)
+    for j in range(nd):
+        tid = len(tasks)
+        k = rng.randint(1, min(2, len(targets)))
+        aft = rng.sample(targets, k)
+        t = _task(tid, deps=[399] if rng.random() < 0.3 else [], after=aft, module=0, after_style="func" if k == 1 and rng.random() < 0.7 else "list")
+        node += 1
+        t["prods"].append(node)
+        t["marks"], t["force_task"] = ([rng.choice(MARKS)] if rng.random() < 0.3 else []), False
+        tasks.append(t)
+    spec = {"tasks": tasks, "py": [], "pk": [], "dirs": [], "wrap": [], "stale": rng.random() < 0.3, "subdirs": rng.random() < 0.3, "pyval": {}}
+    if close_cycle:
+        down = tasks[-1]
+        first = next((tasks[a] for a in down["after"] if tasks[a]["prods"]), None)
+        if first is not None:
+            first["after"] = [down["id"]]
+            first["after_style"] = "expr"
+        else:
+            tasks[down["after"][0]]["deps"] = sorted(set(tasks[down["after"][0]]["deps"]) | {down["prods"][0]})
+    for t in tasks:
+        t.setdefault("dep_form", "bare")
+        t.setdefault("prod_style", "param")
+    add_spellings(rng, spec)
     return spec
 
 
@@ -431,11 +486,16 @@ def run_api(cases, hashseeds):
 # model lines
 # ------------------------------------------------------------------------------------------------
 
+def task_prio(t):
+    marks = t.get("marks", [])
+    return 1 if "try_first" in marks else (-1 if "try_last" in marks else 0)
+
+
 def model_lines(spec):
     lines = ["engine.reset"]
     for t in spec["tasks"]:
         lines.append(f"engine.task id={t['id']} src={project.src_node(t.get('module', 0))} deps={','.join(map(str, t['deps']))} "
-                     f"prods={','.join(map(str, t['prods']))} after={','.join(map(str, t.get('after', [])))} flags= prio=0 beh=ok")
+                     f"prods={','.join(map(str, t['prods']))} after={','.join(map(str, t.get('after', [])))} flags= prio={task_prio(t)} beh=ok")
     return lines
 
 
@@ -529,9 +589,11 @@ def render_module(spec, m):
     tasks = sorted((t for t in spec["tasks"] if t["module"] == m), key=lambda t: t["id"])
     here = "Path(__file__).resolve().parent" + (".parent" if sub else "")
     L = [f"# C09 module {m}", "from __future__ import annotations", "from pathlib import Path", "from typing import Annotated", "from typing import Any",
-         "from pytask import DirectoryNode, PickleNode, Product, task", "import _verif_c09 as rt", f"DATA = {here} / 'data'", ""]
+         "import pytask", "from pytask import DirectoryNode, PickleNode, Product, task", "import _verif_c09 as rt", f"DATA = {here} / 'data'", ""]
     defined = set()
     forms = {}
+    deco_kind = {}
+    has_prods = {t["id"]: bool(t["prods"]) for t in spec["tasks"]}
     for t in tasks:
         tid = t["id"]
 
@@ -558,6 +620,9 @@ def render_module(spec, m):
             else:
                 kw.append("after=" + repr(" or ".join(project.tname(a) for a in aft)))
             forms[tid] = st
+            if st in ("func", "list"):
+                for a in aft:
+                    forms[f"{tid}>{a}"] = f"{st}->{deco_kind[a]}-target" + ("" if has_prods[a] else "-without-products")
         nodef, withdef, path_prods, save_prods, dir_prods = [], [], [], [], []
         special_deps = [n for n in t["deps"] if n in py or n in pk]
         form = t.get("dep_form", "bare") if special_deps else "bare"
@@ -601,8 +666,14 @@ def render_module(spec, m):
                 else:
                     withdef.append(f"p{i}: Annotated[Path, Product] = {pe(n)}")
                     path_prods.append(f"p{i}")
-        if kw:
+        marks = t.get("marks", [])
+        for mk in marks:
+            L.append({"skipif_false": "@pytask.mark.skipif(False, reason='cond false')"}.get(mk, f"@pytask.mark.{mk}"))
+        if kw or t.get("force_task"):
             L.append("@task(" + ", ".join(kw) + ")")
+            deco_kind[tid] = "task"
+        else:
+            deco_kind[tid] = "marker-only" if marks else "plain"
         L.append(f"def {project.tname(tid)}({', '.join(nodef + withdef)}):")
         L.append(f"    return rt.body({tid}, [{', '.join(path_prods)}], {nret}, save=[{', '.join(save_prods)}], dirs=[{', '.join(dir_prods)}])")
         L.append("")
@@ -624,7 +695,7 @@ def node_file(root: Path, spec, n: int) -> Path:
 def materialise(root: Path, spec, stale=False):
     import pickle
     root.mkdir(parents=True, exist_ok=True)
-    (root / "pyproject.toml").write_text("[tool.pytask.ini_options]\n")
+    (root / "pyproject.toml").write_text('[tool.pytask.ini_options]\nmarkers = {markone = "marker one", marktwo = "marker two"}\n')
     (root / "_verif_c09.py").write_text(RT_C09)
     (root / "data").mkdir(exist_ok=True)
     forms = {}
